@@ -234,3 +234,37 @@ Section Semantics.
     | _, _ => False
     end.
 End Semantics.
+
+(* 7.2.14 IsLooselyEqual restricted to primitive operands of the kinds the
+   equality table of CheckEqualityIfNoSideEffects answers for:
+   1. same type -> IsStrictlyEqual; 2-3. null/undefined pair -> true;
+   9-10. a Boolean operand is replaced by ToNumber of it; 14. otherwise false
+   (a null/undefined operand against any other primitive).
+   None: pairs outside the table (Number/String, BigInt/Number, ...). *)
+Definition bool_to_number (b : bool) : num := num_of_Z (if b then 1 else 0).
+Definition spec_loose_eq (x y : value) : option bool :=
+  match x, y with
+  | (VUndef | VNull), (VUndef | VNull) => Some true
+  | (VUndef | VNull), (VBool _ | VNum _ | VBig _ | VStr _ | VSym _) => Some false
+  | (VBool _ | VNum _ | VBig _ | VStr _ | VSym _), (VUndef | VNull) => Some false
+  | VBool a, VBool b => Some (Bool.eqb a b)
+  | VBool a, VNum n => Some (num_eq (bool_to_number a) n)
+  | VNum n, VBool b => Some (num_eq n (bool_to_number b))
+  | VNum a, VNum b => Some (num_eq a b)
+  | VBig a, VBig b => Some (a =? b)
+  | VStr a, VStr b => Some (zlist_eqb a b)
+  | _, _ => None
+  end.
+
+(* value of a bare literal (possibly an inlined enum constant) *)
+Fixpoint lit_value (e : expr) : option value :=
+  match e with
+  | ENull => Some VNull
+  | EUndefined => Some VUndef
+  | EBool b => Some (VBool b)
+  | ENum n => Some (VNum n)
+  | EStr s => Some (VStr s)
+  | EBig s => match big_value s with Some z => Some (VBig z) | None => None end
+  | EInlinedEnum v => lit_value v
+  | _ => None
+  end.
